@@ -105,7 +105,7 @@ package corazawaf
 //@   modifies nothing
 //@   ensures result == tx.debugLogger
 
-//@ func (*RuleGroup).Eval props C02,C08,C17
+//@ func (*RuleGroup).Eval props C02,C08,C17,C12,C04
 //@   requires tx != nil
 //@   modifies inferred, tx.evalCount
 //@   ensures def_counts: tx.evalCount == put(old(tx.evalCount), phase, get(old(tx.evalCount), phase) + 1)
@@ -114,6 +114,12 @@ package corazawaf
 //@   ensures skipAfterReset: tx.SkipAfter == ""
 //@   ensures allowPhaseReset: tx.AllowType != corazatypes.AllowTypePhase
 //@   ensures result == (tx.interruption != nil)
+// the transformation cache is emptied before the first rule of the phase runs (C12: no result computed in an
+// earlier phase is ever reused)
+//@   loop 1
+//@     invariant transformationCache == old(tx.transformationCache) && tx.lastPhase == phase
+//@     invariant forall k transformationKey :: has(transformationCache, k) ==> !visited(k)
+//@     after cacheEmptied: forall k transformationKey :: !has(transformationCache, k)
 //@   loop 2
 //@     invariant tx.lastPhase == phase
 // the phase loop is left early only for the documented reasons (C08): interruption outside the logging phase,
@@ -344,3 +350,18 @@ package corazawaf
 //@   at call "append(v.Exceptions" requires noSharedBackingArray: fresh(arg(0)) || len(arg(0)) == cap(arg(0))
 //@   loop 2
 //@     invariant fresh(v)
+
+// ==== BEGIN C12 transformation cache section ====
+// Results are cached only for collections that do not change while the rules of a phase run (C12): the cache key
+// identifies a value by (collection, key pointer, position), which says nothing about its content for TX, the
+// MATCHED_* collections, RULE, ENV and HIGHEST_SEVERITY, all rewritten by rule evaluation itself.
+//@ define volatileVar(v variables.RuleVariable) bool := v == variables.TX || v == variables.MatchedVar || v == variables.MatchedVarName ||
+//@     v == variables.MatchedVars || v == variables.MatchedVarsNames || v == variables.Rule || v == variables.Env || v == variables.HighestSeverity
+//@ func transformationCacheable props C12,C04
+//@   ensures result == !volatileVar(v)
+//@ spec mdVariable(m types.MatchData) variables.RuleVariable
+//@ func (*Rule).transformArg props C12,C04 nosafety
+//@   modifies inferred
+//@   at "cache[key] = transformationValue" requires neverForVolatile: !volatileVar(mdVariable(arg))
+//@   at "cached, ok := cache[key]" requires neverReadForVolatile: !volatileVar(mdVariable(arg))
+// ==== END C12 transformation cache section ====
